@@ -225,7 +225,9 @@ class Ctx:
             "I": "(fn() do bind_native('str_input'); str_input('c09-line\\nc09-line2') end)()",
             "O": "(fn() do bind_native('str_output'); str_output() end)()",
             "1": "1", "Z": "NULL", "E": "''",
-            "P": "<<<" + _q(os.path.join(c, "a.txt")) + " => " + _q(os.path.join(c, "new.txt")) + ">>>",
+            "P": "<<<" + _q(os.path.join(c, "a.txt")) + " => " + _q(os.path.join(c, "new.txt")) +
+                 ", 'file' => " + _q(os.path.join(c, "a.txt")) + ", 'path' => " + _q(os.path.join(c, "a.txt")) +
+                 ", 'name' => " + _q(os.path.join(c, "new.txt")) + ", 'dir' => " + _q(os.path.join(c, "sub")) + ">>>",
             "B": "<*path = " + _q(os.path.join(c, "a.txt")) + ", name = " + _q(os.path.join(c, "new.txt"))
                  + ", file = " + _q(os.path.join(c, "a.txt")) + "*>",
         }
@@ -866,6 +868,21 @@ def module_id(modules, name):
     return name
 
 
+def func_key(v):
+    """Identifies a function value across interpreters: class, name, parameter
+    names and (for functions written in the language) the text of the body."""
+    try:
+        args = ",".join(str(a) for a in v.getArgNames())
+    except Exception:  # noqa: BLE001
+        args = "?"
+    try:
+        body = getattr(v, "body", None)
+        bh = hashlib.sha1(repr(body).encode("utf-8", "replace")).hexdigest()[:12] if body is not None else ""
+    except Exception:  # noqa: BLE001
+        bh = "?"
+    return "|".join((type(v).__qualname__, str(getattr(v, "name", "")), args, bh))
+
+
 def task_tables(classmap):
     """Module tables, read off interpreters whose gate is held open."""
     def binds(env):
@@ -898,6 +915,35 @@ def task_tables(classmap):
     for m in out["moduleBinds"]:
         out["moduleLoads"].setdefault(m, [m])
     out["modules"] = [n for _s, n in mods]
+    # Home module of every public function value: most functions are met again in other modules
+    # (re-exports, the legacy collection).  The wide argument family is spent once per function
+    # and configuration - in the smallest module that exports it.
+    try:
+        with open_gate():
+            it = make_interp(False, False)
+            for _stem, name in mods:
+                try:
+                    it.interpret("require " + name, "c09")
+                except Exception:  # noqa: BLE001
+                    pass
+        exports = {}
+        for mid, env in it.base_environment.modules.items():
+            keys = set()
+            for sname in env.getLocalSymbols():
+                if sname.startswith("_"):
+                    continue
+                v = env.get(sname)
+                if isinstance(v, V.ValueFunc):
+                    keys.add(func_key(v))
+            exports[mid] = keys
+        home = {}
+        for mid in sorted(exports, key=lambda m: (len(exports[m]), m)):
+            for k in exports[mid]:
+                home.setdefault(k, mid)
+        out["home"] = home
+    except Exception as e:  # noqa: BLE001
+        out["home"] = {}
+        out.setdefault("errors", []).append("home table: " + type(e).__name__)
     return out
 
 
@@ -1309,6 +1355,7 @@ def task_calls(args):
         syms = sorted(obj.value.keys()) if isinstance(obj, V.ValueObject) else []
         lookup = lambda s: obj.value[s]            # noqa: E731
         ref = lambda s: mod + "->" + s             # noqa: E731
+    nwide = 0
     for s in syms:
         res["nsym"] += 1
         try:
@@ -1323,7 +1370,13 @@ def task_calls(args):
                     nargs = MAX_ARITY
             except Exception:  # noqa: BLE001
                 nargs = MAX_ARITY
-            tups = [t for t in shapes_for(cases, nargs, tier, wide) if all(a in usable for a in t)]
+            w = wide
+            if wide == "home":
+                # wide where this function value is at home (or has no home: not exported by any module)
+                h = data.get("home", {}).get(func_key(val))
+                w = h is None or (form == "qual" and h == module_id(it.base_environment.modules, mod))
+            nwide += 1 if w else 0
+            tups = [t for t in shapes_for(cases, nargs, tier, w) if all(a in usable for a in t)]
         else:
             tups = [None]
         for ti, tup in enumerate(tups):
@@ -1352,6 +1405,7 @@ def task_calls(args):
             res["items"].append({"event": ev, "desc": host + (setup + "; " if setup else "") + sym, "bad": bad,
                                  "case": {"kind": "call", "leg": leg, "setup": setup, "wide": bool(wide),
                                           "sym": ref(s), "args": list(tup) if tup is not None else None}})
+    res["nwide"] = nwide
     return res
 
 
@@ -1518,7 +1572,9 @@ def extract(root, tier, seed, cases, pool=None, cands=None):
     if own:
         pool = Pool(root)
     try:
+        _t("pools warm, candidates read")
         kn = pool.map(task_known, [cands])[0]
+        _t("names tried")
         names = sorted(kn["known"])
         if len(names) < 10:
             raise MachineryError(f"only {len(names)} of {kn['tried']} candidate strings are names the binder knows")
@@ -1558,7 +1614,9 @@ def extract(root, tier, seed, cases, pool=None, cands=None):
                     info.setdefault("class_shared", []).append([classmap[r["cls"]], nid])
                     continue
                 classmap[r["cls"]] = nid
+        _t("classified")
         tables = pool.map(task_tables, [classmap])[0]
+        _t("tables")
     finally:
         if own:
             pool.close()
@@ -1621,7 +1679,7 @@ def extract(root, tier, seed, cases, pool=None, cands=None):
         "otherConfigs": ["00", "01"] if quick else ["00", "01", "10", "11"],
     }
     side = {"classmap": classmap, "forbidden": forbidden, "ids": sorted(natives), "modules": mods,
-            "modname": modname,
+            "modname": modname, "home": tables.get("home", {}),
             "bootmod": bootmod, "bootsym": "", "probe": probe, "natives": data["natives"],
             "rows": natives, "info": info, "insecure": insecure, "touching": touching,
             "table_errors": tables.get("errors", [])}
@@ -1667,14 +1725,25 @@ def new_event(leg, via="ctor", secure=True):
 
 def validate(run, events, metas, label, selftest=True):
     """Secure_Trace decides.  metas[i] = (key, desc, case, bad ids)."""
-    n = len(events)
-    allev = list(events)
+    # identical observations made in a row (thousands of calls that did nothing) are folded into one
+    # record with a multiplicity; what the spec says about the record holds for each of them
+    allev = []
+    members = []                      # folded line -> indices into events/metas
+    for i, e in enumerate(events):
+        if allev and e["op"] == "obs" and allev[-1]["op"] == "obs" and \
+                all(allev[-1].get(k) == v for k, v in e.items()) and len(allev[-1]) == len(e) + 1:
+            allev[-1]["n"] += 1
+            members[-1].append(i)
+        else:
+            allev.append(dict(e, n=1) if e["op"] == "obs" else e)
+            members.append([i])
+    n = len(allev)
     expect = {}
     if selftest:
         good = {"op": "obs", "phase": "selftest", "os": [{"kind": "read", "cls": "bundled", "req": True},
                                                        {"kind": "env", "cls": "none", "req": False},
                                                        {"kind": "stat", "cls": "usermods", "req": True}],
-                "flag": "TRUE", "nbad": 0, "canary": True, "ran": False}
+                "flag": "TRUE", "nbad": 0, "canary": True, "ran": False, "n": 1}
         allev.append(new_event(False))
         allev.append(good)
         for field, val, why in (("flag", "FALSE", "flag-changed"), ("nbad", 1, "forbidden-native-reachable"),
@@ -1716,36 +1785,41 @@ def validate(run, events, metas, label, selftest=True):
         if ln > n:
             seen_self.setdefault(ln, set()).add(b["why"])
             continue
-        rejected += 1
-        key, desc, case, bad = metas[ln - 1]
-        ev = events[ln - 1]
         why = b["why"]
-        if why == "forbidden-native-reachable":
-            tail = "reachable:" + ",".join(bad)
-            what = f"forbidden-native-reachable: after `{desc}` the secure interpreter reaches {bad}"
-        elif why == "os-event":
-            tail = "os:" + summarize_os(ev)
-            what = f"os-event: `{desc}` in a secure interpreter caused {summarize_os(ev)} (kind:where, ! = outside require)"
-        elif why == "flag-changed":
-            tail = "flag:" + str(ev["flag"])
-            what = f"flag-changed: after `{desc}` the base flag reads {ev['flag']}"
-        elif why == "canary-changed":
-            tail = "canary"
-            what = f"canary-changed: `{desc}` changed the canary directory"
-        elif why == "script-file-run":
-            tail = "script-run"
-            what = f"script-file-run: `{desc}` in a secure interpreter ran a script file that is no module"
-        elif why == "front-end-not-secure":
-            tail = "flag:" + str(ev["flag"])
-            what = (f"front-end-not-secure: `{desc}` was asked for a secure-mode interpreter and the program "
-                    f"sees checkerlang_secure_mode = {ev['flag']}")
-        else:
-            tail = why
-            what = f"{why}: {desc}"
-        found.setdefault((key[:1], why), []).append((key + " -> " + tail, what, case))
+        for oi in members[ln - 1]:
+            rejected += 1
+            key, desc, case, bad = metas[oi]
+            ev = events[oi]
+            if why == "forbidden-native-reachable":
+                tail = "reachable:" + ",".join(bad)
+                what = f"forbidden-native-reachable: after `{desc}` the secure interpreter reaches {bad}"
+            elif why == "os-event":
+                tail = "os:" + summarize_os(ev)
+                what = f"os-event: `{desc}` in a secure interpreter caused {summarize_os(ev)} (kind:where, ! = outside require)"
+            elif why == "flag-changed":
+                tail = "flag:" + str(ev["flag"])
+                what = f"flag-changed: after `{desc}` the base flag reads {ev['flag']}"
+            elif why == "canary-changed":
+                tail = "canary"
+                what = f"canary-changed: `{desc}` changed the canary directory"
+            elif why == "script-file-run":
+                tail = "script-run"
+                what = f"script-file-run: `{desc}` in a secure interpreter ran a script file that is no module"
+            elif why == "front-end-not-secure":
+                tail = "flag:" + str(ev["flag"])
+                what = (f"front-end-not-secure: `{desc}` was asked for a secure-mode interpreter and the program "
+                        f"sees checkerlang_secure_mode = {ev['flag']}")
+            else:
+                tail = why
+                what = f"{why}: {desc}"
+            found.setdefault((key[:1], why), []).append((key + " -> " + tail, what, case))
     # report round-robin over (binding, clause) so that the replay files written
     # for the first violations cover every kind that occurred
     queues = [found[k] for k in sorted(found)]
+    if found:
+        byc = run.cov.setdefault("rejected_by_binding_and_clause", {})
+        for (b0, why0), q in sorted(found.items()):
+            byc[b0 + ":" + why0] = byc.get(b0 + ":" + why0, 0) + len(q)
     i = 0
     while any(queues):
         for q in queues:
@@ -1880,8 +1954,19 @@ def _run2(run, quick, root, pool, cpool, xpool, cases, cands):
         json.dump(data, f)
     cfg = "Secure_quick" if quick else "Secure_thorough"
     try:
-        res = run_tlc("Secure", cfg, workers=1, env={"C09_DATA": dpath}, coverage=True, timeout=3000,
-                      allow_violation=True)
+        res = run_tlc("Secure", cfg, workers=1, env={"C09_DATA": dpath}, timeout=3000, allow_violation=True)
+        # how often each action was taken, counted from the exported transitions (-coverage triples the run)
+        acts = {"bind": "BindNative", "require": "RequireBundled", "foreign": "RequireForeign",
+                "other": "ConstructOther", "shadow": "DefShadow", "assign": "AssignFlag"}
+        taken = {a: 0 for a in ("Boot", "RegisterRun", "SkipRun") + tuple(acts.values())}
+        for b in res.records("BOOT"):
+            taken["Boot"] += 1
+            taken["RegisterRun" if not b["flag"] else "SkipRun"] += 1
+        for e in res.records("EDGE"):
+            a = acts.get(e["hist"][-1]["a"]) if e["hist"] else None
+            if a:
+                taken[a] += 1
+        res.coverage = taken
         run.add_tlc(res, f"Secure gate model over the extracted native table ({cfg})")
         cex = res.records("CEX")
         model_violated = None
@@ -1898,8 +1983,7 @@ def _run2(run, quick, root, pool, cpool, xpool, cases, cands):
             edges_src = res
     finally:
         shutil.rmtree(d, ignore_errors=True)
-    never = [a for a, c in res.coverage.items() if c == 0 and a in
-             ("Boot", "RegisterRun", "SkipRun", "BindNative", "RequireBundled", "DefShadow", "AssignFlag")]
+    never = [a for a, c in res.coverage.items() if c == 0]
     if res.ok and never:
         raise MachineryError("model actions never taken: " + ",".join(never))
     boots = edges_src.records("BOOT")
@@ -1946,19 +2030,24 @@ def _run2(run, quick, root, pool, cpool, xpool, cases, cands):
     # ---- replay on the code
     wdata = {"classmap": side["classmap"], "forbidden": side["forbidden"], "ids": side["ids"],
              "natives": data["natives"], "probe": side["probe"], "bootmod": side["bootmod"],
-             "bootsym": side["bootsym"], "boot_reach": boot_reach, "modname": side["modname"]}
+             "bootsym": side["bootsym"], "boot_reach": boot_reach, "modname": side["modname"],
+             "home": side["home"]}
     edges_src.out = res.out = ""           # the TLC output is no longer needed
     if True:
         # the call sweeps contain the few slow invocations: start them first
         jobs = []
         wcases = {"shapes": cases["shapes"]}
         for leg in (True, False):
-            jobs.append((wdata, wcases, leg, "base", "", run.tier, True))
+            # Quick: every function value gets the wide family once per configuration, through the
+            # module object of its home module (the smallest module that exports it), or in the base
+            # environment when no module exports it; the other access paths to the same function values
+            # (re-exports, the unqualified import, the legacy base environment) get the first round's
+            # tuples.  Thorough: the wide family on every module object and base symbol, the quick
+            # family on the unqualified imports.
+            jobs.append((wdata, wcases, leg, "base", "", run.tier, "home" if quick else True))
             for m in side["modules"]:
-                jobs.append((wdata, wcases, leg, "qual", m, run.tier, True))
+                jobs.append((wdata, wcases, leg, "qual", m, run.tier, "home" if quick else True))
             for m in side["modules"]:
-                # the same function values through a second access path: the first round's tuples
-                # (quick) / the quick family (thorough)
                 jobs.append((wdata, wcases, leg, "unq", m, "quick", not quick))
         f_calls = [cpool.ex.submit(task_calls, j) for j in jobs]
         groups = group_edges(edges)
@@ -2031,7 +2120,7 @@ def _run2(run, quick, root, pool, cpool, xpool, cases, cands):
         metas.append(("new", "", {}, []))
         events.append(g["event"])
         metas.append(("G:" + g["desc"], g["desc"], g["case"], g["bad"]))
-    ncalls = nsym = nfunc = 0
+    ncalls = nsym = nfunc = nwide = 0
     for r in call_results:
         if r.get("boot_failed"):
             boot_failed.append(f"secure=True,legacy={r['leg']}:" + str(r["boot_failed"]))
@@ -2039,6 +2128,7 @@ def _run2(run, quick, root, pool, cpool, xpool, cases, cands):
         for kind, smp in r["drift"]:
             run.drift(kind, smp)
         ncalls += r["ncalls"]
+        nwide += r.get("nwide", 0)
         nsym += r["nsym"]
         nfunc += r["nfunc"]
         if r["timeouts"]:
@@ -2124,7 +2214,8 @@ def _run2(run, quick, root, pool, cpool, xpool, cases, cands):
     run.cov["observations_rejected"] = rejected
     run.cov["model_counterexample"] = model_violated
     run.cov["binding_B"] = {"symbols": nsym, "function_symbols": nfunc, "calls": ncalls,
-                            "setups": len(call_results), "require_module_specs": nreq,
+                            "setups": len(call_results), "function_symbols_given_the_wide_family": nwide,
+                            "require_module_specs": nreq,
                             "module_specs_in_the_family": len(cases["specs"]), "front_end_runs": ncli}
     run.cov["binding_A"] = {"behaviours_exported_by_tlc": exported, "behaviours_replayed": len(edges),
                             "secure_behaviours": nsec_edges, "last_actions_replayed": nact}
@@ -2166,7 +2257,7 @@ def replay(run, case):
         side["bootsym"] = pick_bootsym(side)
         wdata = {"classmap": side["classmap"], "forbidden": side["forbidden"], "ids": side["ids"],
                  "natives": data["natives"], "probe": side["probe"], "bootmod": side["bootmod"],
-                 "bootsym": side["bootsym"], "modname": side["modname"]}
+                 "bootsym": side["bootsym"], "modname": side["modname"], "home": side["home"]}
         pool = Pool(os.path.join(root, "r"), 1)
         events, metas = [], []
         try:
